@@ -141,13 +141,19 @@ def check_literal(case):
     """a set literal of the given type with elements in the given order is accepted iff strictly increasing (spec order)"""
     from pytezos.michelson.types.base import MichelsonType
     texpr, elems, sorted_strict = case['type_expr'], case['elems'], case['sorted']
-    ST = MichelsonType.match({'prim': 'set', 'args': [texpr]})
+    coll = case.get('collection', 'set')
+    if coll == 'set':
+        ST = MichelsonType.match({'prim': 'set', 'args': [texpr]})
+        lit = elems
+    else:       # map / big_map keyed by the elements
+        ST = MichelsonType.match({'prim': coll, 'args': [texpr, {'prim': 'nat'}]})
+        lit = [{'prim': 'Elt', 'args': [k, {'int': str(i)}]} for i, k in enumerate(elems)]
     try:
-        ST.from_micheline_value(elems)
+        ST.from_micheline_value(lit)
         ok = True
     except Exception:   # noqa
         ok = False
-    return ok != sorted_strict, f'set literal {elems} of {texpr}: accepted={ok}, strictly sorted by the Michelson order={sorted_strict}'
+    return ok != sorted_strict, f'{coll} literal with keys {elems} of {texpr}: accepted={ok}, strictly sorted by the Michelson order={sorted_strict}'
 
 
 def run_R(ck: Check):
@@ -205,9 +211,12 @@ def run_R(ck: Check):
             lits.append(dict(kind='literal', type_expr=texpr, elems=list(perm), sorted=list(perm) == srt))
         if len(srt) >= 2:
             lits.append(dict(kind='literal', type_expr=texpr, elems=[srt[0], srt[0], srt[1]], sorted=False))
-    for c in lits:
-        bad, info = check_literal(c)
-        ck.evaluate(('literal', c['type_expr']['prim'], c['sorted']))
-        if bad:
-            ck.violation(f'set_literal[{c["type_expr"]["prim"]}]::accepted_iff_strictly_sorted', info, case=c, replay='props.C03_R:replay',
-                         wclass=f'literal:{c["type_expr"]["prim"]}:{"sorted" if c["sorted"] else "unsorted"}')
+    for c0 in lits:
+        for coll in ('set', 'map', 'big_map'):
+            c = dict(c0, collection=coll)
+            bad, info = check_literal(c)
+            ck.evaluate(('literal', coll, c['type_expr']['prim'], c['sorted']))
+            if bad:
+                dup = len(c['elems']) != len({repr(x) for x in c['elems']})
+                ck.violation(f'{coll}_literal[{c["type_expr"]["prim"]}]::accepted_iff_strictly_sorted', info, case=c, replay='props.C03_R:replay',
+                             wclass=f'literal:{coll}:{c["type_expr"]["prim"]}:{"sorted" if c["sorted"] else "duplicate" if dup else "unsorted"}')
